@@ -139,22 +139,22 @@ Definition handler_got_eof (r : N) (tr : trace) : bool :=
 Definition recvd (w : who) (tr : trace) : list (N * N) :=
   flat_map (fun x => match x with (_, ROk, _, len, dg, _, _, _, _) => [(len, dg)] | _ => [] end) (rets_of w ORecv tr).
 
-Definition mon_C01_rpc (tr : trace) (r : N) (sh : shape) : list failure :=
+Definition mon_C01_rpc (c : cfg) (tr : trace) (r : N) (sh : shape) : list failure :=
   (* requests *)
   let sent := sent_list (Cw r) tr false in
   let sent_ok := sent_list (Cw r) tr true in
   let got := recvd (Hr r) tr in
-  prefix_check 101 r 0 got sent ++
-  (if handler_got_eof r tr && negb (Nat.eqb (length got) (length sent_ok)) then fl 102 0 (zr r) 0 else []) ++
+  (if c_raws c then [] else prefix_check 101 r 0 got sent) ++
+  (if negb (c_raws c) && handler_got_eof r tr && negb (Nat.eqb (length got) (length sent_ok)) then fl 102 0 (zr r) 0 else []) ++
   (* responses *)
   let sent := match sh with ShU => unary_resp r tr | _ => sent_list (Hw r) tr false end in
   let sent_ok := match sh with ShU => unary_resp r tr | _ => sent_list (Hw r) tr true end in
   let got := recvd (Cr r) tr in
-  prefix_check 101 r 1000 got sent ++
-  (if got_eof (Cr r) tr && negb (Nat.eqb (length got) (length sent_ok)) then fl 102 0 (zr r) 1 else []).
+  (if c_raws c then [] else prefix_check 101 r 1000 got sent) ++
+  (if negb (c_raws c) && got_eof (Cr r) tr && negb (Nat.eqb (length got) (length sent_ok)) then fl 102 0 (zr r) 1 else []).
 
-Definition mon_C01 (tr : trace) : list failure :=
-  flat_map (fun x => match x with (r, _, sh, _, _, _, _, _) => mon_C01_rpc tr r sh end) (rpcs_of tr).
+Definition mon_C01 (c : cfg) (tr : trace) : list failure :=
+  flat_map (fun x => match x with (r, _, sh, _, _, _, _, _) => mon_C01_rpc c tr r sh end) (rpcs_of tr).
 
 (* ---------- C02 ---------- *)
 Definition handler_status (r : N) (tr : trace) : option res :=
@@ -234,11 +234,13 @@ Definition mon_C02_rpc (tr : trace) (r : N) (sh : shape) (md cmd : option mdt) (
          if N.eqb r r' && negb (md_eqb (omd hmd) (md_join (omd md) (omd cmd))) then fl 209 a (zr r) 0 else []
      | _ => [] end) tr.
 
-Definition mon_C02 (tr : trace) : list failure :=
+Definition mon_C02 (c : cfg) (tr : trace) : list failure :=
+  if c_raws c then [] else
   flat_map (fun x => match x with (r, _, sh, md, cmd, to, _, _) => mon_C02_rpc tr r sh md cmd to end) (rpcs_of tr).
 
 (* ---------- C03 / C04 ---------- *)
-Definition mon_C03 (tr : trace) : list failure :=
+Definition mon_C03 (c : cfg) (tr : trace) : list failure :=
+  if c_rawc c || c_raws c then [] else
   let te := first_tunnel_end tr in
   let td := teardown_at tr in
   flat_map (fun e => match e with
@@ -256,7 +258,7 @@ Definition all_whos (tr : trace) : list who :=
   flat_map (fun x => match x with (r, _, _, _, _, _, _, _) => [Cw r; Cr r; Hw r; Hr r] end) (rpcs_of tr).
 
 Definition mon_C04 (c : cfg) (tr : trace) : list failure :=
-  match first_tunnel_end tr, teardown_at tr with
+  match (if c_rawc c || c_raws c then None else first_tunnel_end tr), teardown_at tr with
   | Some te, Some td =>
       let pre := before td tr in
       let last := td - 1 in
@@ -307,12 +309,12 @@ Definition mon_C07_rpc (c : cfg) (tr : trace) (r : N) (sh : shape) : list failur
       (* the caller's pending operations return at once, without waiting for the peer *)
       flat_map (fun w => if N.eqb (n_calls w ac tr) (n_rets w ac tr) then [] else fl 703 ac (zr r) 0) [Cw r; Cr r] ++
       (* never a mixture: success implies the handler's OK, its trailers, all data (C01/C02 check the latter) *)
-      (match terminal r tr, handler_status r tr with
+      (match (if c_raws c then None else terminal r tr), handler_status r tr with
        | Some (a, REof, _, _, _, _, _, _, _), Some ROk => []
        | Some (a, REof, _, _, _, _, _, _, _), _ => fl 701 a (zr r) 0
        | _, _ => [] end) ++
       (* on a non-streaming response a successful receive is the final success *)
-      (if server_streams sh then [] else
+      (if server_streams sh || c_raws c then [] else
          match filter (fun x => match x with (_, ROk, _, _, _, _, _, _, _) => true | _ => false end) (rets_of (Cr r) ORecv tr),
                handler_status r tr with
          | [], _ => []
@@ -378,7 +380,7 @@ Definition mon_C10 (c : cfg) (tr : trace) : list failure :=
          | (a, ChanDone t _) | (a, ServeRet t _ _) =>
              let after_td := match td with Some x => x <=? a | None => false end in
              let caused := match te with Some x => x <=? a | None => false end in
-             if (as_ <=? a) && negb after_td && negb caused then fl 1003 a (zr t) 0 else []
+             if (as_ <=? a) && negb after_td && negb caused && negb (c_rawc c) then fl 1003 a (zr t) 0 else []
          | _ => [] end) tr
   end.
 
